@@ -191,6 +191,8 @@ def pipeline_model_diff(d, tag, inst, res, impl):
     toks = ["%d" % len(tours)] + ["%d %d %s" % (t, len(n), " ".join(n)) for (t, n) in tours]
     for (_, blk) in blocks:
         toks += blk
+    # the transitions recorded inside the transition optimisation (start per type, accepted steps, result)
+    toks += [l for l in impl if l.split()[0] in ("TREC", "TC", "TEND")]
     if res["js"] is not None and "convert" not in res["outchk"]:
         toks += out_tokens(inst, res["perm"], res["js"])
     mpath = os.path.join(d, "%s.pipe" % tag)
@@ -210,6 +212,19 @@ def pipeline_model_diff(d, tag, inst, res, impl):
             return "a hypothesis of the end-to-end theorem does not hold on this run: " + l
         if l.startswith("RENDER") and l.split()[1] != "ok":
             return "returned JSON is not the rendering of the final schedule (Render.v): " + l
+        p = l.split()
+        if p[0] == "HYP3" and "false" in l:
+            return "a hypothesis of the optimiser-terminates theorem does not hold on this run: " + l
+        if p[0] == "TSTART" and p[2] != "ok":
+            return "transition optimiser (TOpt.v): start transition is not the search result's: " + l
+        if p[0] == "TSTEP" and p[-1] != "ok":
+            return ("transition optimiser (TOpt.v): accepted step is not a minimal, strictly improving neighbour of the "
+                    "model (1521 not a model neighbour, 1522 not minimal, 1523 not improving): " + l)
+        if p[0] == "TSTOP" and (p[-2] != "ok" or p[-1] != "result=ok"):
+            return ("transition optimiser (TOpt.v): stopped although a model neighbour is strictly better (1524), or the "
+                    "transition handed back is not the last accepted one: " + l)
+        if p[0] == "TWIRE" and p[2] != "ok":
+            return "the cycles of the opt stage are not the ones the transition optimiser handed back: " + l
         if l.startswith("TRANSVALID") and l.split()[2] != "ok":
             return "optimised transitions violate the bookkeeping invariant w.r.t. the search result: " + l
     mblocks = sched_blocks(model)
